@@ -256,8 +256,13 @@ impl<QV: AsRef<QVector>> Iterator for QVectorIterator<QV> {
     fn next(&mut self) -> Option<Self::Item> {
         // TODO: this may be faster without calling get.
         let qv = self.qv.as_ref();
-        self.i += 1;
-        qv.get(self.i - 1)
+        // do not move past the end, so that the cursor cannot overflow
+        if self.i < qv.len() {
+            self.i += 1;
+            qv.get(self.i - 1)
+        } else {
+            None
+        }
     }
 }
 
